@@ -31,10 +31,18 @@ QUICK_SHARE: dict = {}
 # quick tier: these classes are taken whole but with the forward map only (+ the adjoint of a seeded third)
 VIEWS_QUICK = {"DtypeSweep": ["eval"], "WrappedOptions": ["eval"]}
 
+# operator arithmetic between a LinearOperator class and a non-linear Operator (class CalculusMixed): builder name ->
+# source class it instantiates (every LinearOperator subclass that overrides an arithmetic dunder must appear here: the
+# generated table of harness/jaxpr_translate.py checks it), and the operations applied
+CALCULUS_LEFT = {"matrix": "MatrixOperator", "diagonal": "Diagonal", "identity": "Identity", "scaledidentity": "ScaledIdentity", "circconv": "CircularConvolve",
+                 "convolve": "Convolve", "convolvebyx": "ConvolveByX", "fd": "SingleAxisFiniteDifference", "generic": "LinearOperator"}
+CALCULUS_OPS = ("add", "sub", "radd", "rsub", "compose", "rcompose", "matmul", "rmatmul")
+
 # slugs of the `known:` findings of C06 that are currently recorded (set by c06.generate): grid configurations that are
 # exactly a recorded witness carry `known_id` and are left out while the finding is recorded (the corpus replays them)
 KNOWN_IDS: set = set()
 KNOWN_SUM_INITIAL = "sum-initial-affine"
+KNOWN_CIRCCONV_REAL_OUT = "circconv-real-output-complex-input"
 
 
 class NotPresentedAsLinear(Exception):
@@ -83,13 +91,23 @@ def _extra_grid(name, rng):
     if name == "DiagonalReplicatedPmap":
         return [{"shape": [3], "dtype": "float64"}]
     if name == "MixedDtype":
-        return [{"kind": k, "shape": [4], "dtype": "complex128"} for k in
-                ("circconv", "circconv_center", "convolve", "convolvebyx", "diagonal", "scaledidentity", "matrix_compose", "fd", "sum", "generic_matmul")]
+        out = [{"kind": k, "shape": [4], "dtype": "complex128"} for k in
+               ("circconv", "circconv_center", "convolve", "convolvebyx", "diagonal", "scaledidentity", "matrix_compose", "fd", "sum", "generic_matmul")]
+        # the other direction and the remaining ways in which CircularConvolve decides its `real` flag / output dtype
+        out += [{"kind": k, "shape": [4], "dtype": dt} for k, dt in
+                (("circconv_cfilter", "float64"), ("circconv_cfilter", "float32"), ("circconv_hdft", "float64"), ("circconv_hdft", "complex128"),
+                 ("circconv", "complex64"), ("circconv_2d_real_filter", "complex128"), ("convolve_cfilter", "float64"),
+                 ("diagonal_cdiag", "float64"), ("matrix_cmat_compose", "float64"))]
+        out.append({"kind": "circconv_hdft_real_out", "shape": [4], "dtype": "complex128", "known_id": KNOWN_CIRCCONV_REAL_OUT})
+        return out
     if name == "CalculusMixed":
         out = []
-        for left in ("matrix", "diagonal", "identity", "circconv", "fd", "generic"):
-            for opn in ("add", "sub", "radd", "rsub", "compose", "rcompose"):
-                out.append({"left": left, "op": opn, "nonlinear": "abs", "shape": [4], "dtype": "float64"})
+        for left in CALCULUS_LEFT:
+            for opn in CALCULUS_OPS:
+                for nl in ("abs", "square"):
+                    if nl == "square" and opn not in ("add", "rsub", "compose", "matmul"):
+                        continue
+                    out.append({"left": left, "op": opn, "nonlinear": nl, "shape": [4], "dtype": "float64"})
         return out
     if name == "WrappedOptions":
         out = []
@@ -247,6 +265,24 @@ def build(name, c):
             return linop.CircularConvolve(hr, shape, input_dtype=dt)
         if k == "circconv_center":
             return linop.CircularConvolve(hr, shape, input_dtype=dt, h_center=1)
+        hc = jnp.asarray(np.array([1.0 + 0.5j, -0.5, 0.25j]))  # complex filter
+        if k == "circconv_cfilter":  # complex filter, real input space: an operator R^n -> C^n (real flag off)
+            return linop.CircularConvolve(hc.astype(np.complex64 if np.dtype(dt) == np.float32 else np.complex128), shape, input_dtype=dt)
+        if k == "circconv_hdft":  # filter given by its DFT: the output dtype is the input dtype unless stated
+            return linop.CircularConvolve(jnp.fft.fft(hr, n=n), shape, input_dtype=dt, h_is_dft=True)
+        if k == "circconv_hdft_real_out":  # complex input, declared real output: must be rejected or complex-linear
+            try:
+                return linop.CircularConvolve(jnp.fft.fft(hr, n=n), shape, input_dtype=dt, h_is_dft=True, output_dtype=np.float64)
+            except ValueError as e:
+                raise NotPresentedAsLinear(f"rejected:{type(e).__name__}") from e
+        if k == "circconv_2d_real_filter":
+            return linop.CircularConvolve(jnp.asarray(np.array([[1.0, -0.5], [0.25, 2.0]])), (3, 4), input_dtype=dt)
+        if k == "convolve_cfilter":
+            return linop.Convolve(hc, shape, input_dtype=dt, mode="same")
+        if k == "diagonal_cdiag":
+            return linop.Diagonal(jnp.asarray(np.arange(1.0, n + 1) * (1 - 0.5j)), input_dtype=dt)
+        if k == "matrix_cmat_compose":
+            return linop.MatrixOperator(jnp.asarray((np.arange(n * n).reshape(n, n) / 8) * (1 + 1j))) @ linop.CircularConvolve(hr, shape, input_dtype=dt)
         if k == "convolve":
             return linop.Convolve(hr, shape, input_dtype=dt, mode="same")
         if k == "convolvebyx":
@@ -267,31 +303,10 @@ def build(name, c):
             return linop.LinearOperator(shape, output_shape=shape, eval_fn=lambda x: Mr @ x, input_dtype=dt)
         raise KeyError(k)
     if name == "CalculusMixed":
-        from scico.operator import Abs, Operator
-
-        n = shape[0]
-        left = {
-            "matrix": lambda: linop.MatrixOperator(jnp.asarray((np.arange(n * n).reshape(n, n) / 8 - 0.5).astype(dt))),
-            "diagonal": lambda: linop.Diagonal(jnp.asarray(np.arange(1.0, n + 1).astype(dt))),
-            "identity": lambda: linop.Identity(shape, input_dtype=dt),
-            "circconv": lambda: linop.CircularConvolve(jnp.asarray(np.array([1.0, -0.5]).astype(dt)), shape, input_dtype=dt),
-            "fd": lambda: linop.SingleAxisFiniteDifference(shape, input_dtype=dt, axis=0, circular=True),
-            "generic": lambda: linop.LinearOperator(shape, output_shape=shape, eval_fn=lambda x: 2.0 * x, input_dtype=dt, output_dtype=dt),
-        }[c["left"]]()
-        F = Abs(input_shape=shape, input_dtype=dt)
-        o = c["op"]
-        if o == "add":
-            R = left + F
-        elif o == "sub":
-            R = left - F
-        elif o == "radd":
-            R = F + left
-        elif o == "rsub":
-            R = F - left
-        elif o == "compose":
-            R = left(F)
-        else:
-            R = F(left)
+        try:
+            R = calculus_result(c)
+        except (NotImplementedError, TypeError) as e:
+            raise NotPresentedAsLinear(f"refused:{type(e).__name__}") from e
         if not isinstance(R, linop.LinearOperator):
             raise NotPresentedAsLinear(type(R).__name__)
         return R
@@ -427,6 +442,54 @@ def build(name, c):
             return linop.LinearOperator(shape, output_shape=shape, eval_fn=f, input_dtype=dt, output_dtype=dt)
         raise KeyError(k)
     raise KeyError(name)
+
+
+def calculus_result(c):
+    """the object scico returns for `left <op> F` with `left` an instance of a LinearOperator class and `F` a NON-linear
+    Operator (configuration of class CalculusMixed)"""
+    import jax.numpy as jnp
+
+    import scico.numpy as snp
+    from scico import linop
+    from scico.operator import Abs, Operator
+
+    dt = np.dtype(c["dtype"]).type
+    shape = tuple(c["shape"])
+    n = shape[0]
+    hk = jnp.asarray(np.array([1.0, -0.5]).astype(dt))
+    left = {
+        "matrix": lambda: linop.MatrixOperator(jnp.asarray((np.arange(n * n).reshape(n, n) / 8 - 0.5).astype(dt))),
+        "diagonal": lambda: linop.Diagonal(jnp.asarray(np.arange(1.0, n + 1).astype(dt))),
+        "identity": lambda: linop.Identity(shape, input_dtype=dt),
+        "scaledidentity": lambda: linop.ScaledIdentity(dt(2.5), shape, input_dtype=dt),
+        "circconv": lambda: linop.CircularConvolve(hk, shape, input_dtype=dt),
+        "convolve": lambda: linop.Convolve(hk, shape, input_dtype=dt, mode="same"),
+        "convolvebyx": lambda: linop.ConvolveByX(hk, (2,), input_dtype=dt, mode="full") if False else linop.ConvolveByX(jnp.asarray(np.arange(1.0, n + 1).astype(dt)), (n,), input_dtype=dt, mode="same"),
+        "fd": lambda: linop.SingleAxisFiniteDifference(shape, input_dtype=dt, axis=0, circular=True),
+        "generic": lambda: linop.LinearOperator(shape, output_shape=shape, eval_fn=lambda x: 2.0 * x, input_dtype=dt, output_dtype=dt),
+    }[c["left"]]()
+    if c["nonlinear"] == "abs":
+        F = Abs(input_shape=shape, input_dtype=dt)
+    else:
+        F = Operator(shape, output_shape=shape, eval_fn=lambda x: x * x, input_dtype=dt, output_dtype=dt)
+    o = c["op"]
+    if o == "add":
+        return left + F
+    if o == "sub":
+        return left - F
+    if o == "radd":
+        return F + left
+    if o == "rsub":
+        return F - left
+    if o == "compose":
+        return left(F)
+    if o == "rcompose":
+        return F(left)
+    if o == "matmul":
+        return left @ F
+    if o == "rmatmul":
+        return F @ left
+    raise KeyError(o)
 
 
 def _dft(linop, shape, dt, jit=True):
